@@ -37,9 +37,10 @@ mod verif_recon {
         }
     }
 
-    fn settings(crlf: bool, hard: bool, wide: bool) -> (ReconstructionSettings, &'static str, &'static str, &'static str) {
+    fn settings(crlf: bool, hard: bool, shape: u8) -> (ReconstructionSettings, &'static str, &'static str, &'static str) {
         // widths 1 or 2: enough to tell indentation, continuation and spaces apart
-        let (iw, cw): (u8, u8) = if wide { (2, 1) } else { (1, 2) };
+        // shape 0: (1, 2), shape 1: (2, 1), shape 2: (1, 0) - an empty continuation string (continuation_indents = 0)
+        let (iw, cw): (u8, u16) = match shape { 1 => (2, 1), 2 => (1, 0), _ => (1, 2) };
         let rs = ReconstructionSettings::new(
             if crlf { LineEnding::Crlf } else { LineEnding::Lf },
             if hard { TabKind::Hard } else { TabKind::Soft },
@@ -47,11 +48,13 @@ mod verif_recon {
             cw,
         );
         let nl = if crlf { "\r\n" } else { "\n" };
-        let (ind, cont) = match (hard, wide) {
-            (true, true) => ("\t\t", "\t"),
-            (true, false) => ("\t", "\t\t"),
-            (false, true) => ("  ", " "),
-            (false, false) => (" ", "  "),
+        let (ind, cont) = match (hard, shape) {
+            (true, 1) => ("\t\t", "\t"),
+            (true, 2) => ("\t", ""),
+            (true, _) => ("\t", "\t\t"),
+            (false, 1) => ("  ", " "),
+            (false, 2) => (" ", ""),
+            (false, _) => (" ", "  "),
         };
         (rs, nl, ind, cont)
     }
@@ -86,12 +89,13 @@ mod verif_recon {
 
     // One case = concrete counters and settings (so that every length is concrete); symbolic:
     // both token kinds, the ignored flag, the two original whitespace bytes, the content byte.
-    fn run_pair(c1: (u16, u16, u16, u16), crlf: bool, hard: bool, wide: bool) {
-        let (rs, nl, ind, cont) = settings(crlf, hard, wide);
+    fn run_pair(c1: (u16, u16, u16, u16), crlf: bool, hard: bool, shape: u8) {
+        let (rs, nl, ind, cont) = settings(crlf, hard, shape);
         let k0: u8 = kani::any();
         let k1: u8 = kani::any();
         kani::assume(k0 <= 5 && k1 <= 5);
         let (tt0, tt1) = (kind(k0), kind(k1));
+        let ignored0: bool = kani::any();
         let ignored1: bool = kani::any();
         let buf: [u8; 3] = kani::any();
         kani::assume(blank(buf[0]) && blank(buf[1]) && buf[2] > 0x20 && buf[2] < 0x7f);
@@ -103,7 +107,7 @@ mod verif_recon {
 
         let mut toks = [Token::new_ref("//a", 0, tt0), Token::new_ref(s1, 2, tt1)];
         let fmt = vec![
-            FormattingData::verif_new(false, 0, 0, 0, 0),
+            FormattingData::verif_new(ignored0, 0, 0, 0, 0),
             FormattingData::verif_new(ignored1, c1.0, c1.1, c1.2, c1.3),
         ];
         let ft = FormattedTokens::verif_new(&mut toks, fmt);
@@ -119,6 +123,7 @@ mod verif_recon {
         kani::cover!(is_line_comment(tt0) && !ignored1 && !is_eof1, "formatted token after a line comment");
         kani::cover!(is_line_comment(tt0) && ignored1 && !is_eof1 && buf[0] == b'\r' && buf[1] == b' ', "ignored token after a CR-terminated comment");
         kani::cover!(ignored1 && !is_line_comment(tt0), "ignored token elsewhere");
+        kani::cover!(ignored0 && is_line_comment(tt0) && !ignored1 && !is_eof1 && c1.0 == 0, "formatted token without a line break after an IGNORED line comment (safety net still applies)");
         assert!(out.len() == exp.n, "OB recon/emitted_length: reconstruct emits exactly ws_i ++ content_i per token (length)");
         let ob = out.as_bytes();
         let mut i = 0;
@@ -132,32 +137,38 @@ mod verif_recon {
     #[kani::proof]
     #[kani::unwind(8)]
     fn recon_c0000_lf() {
-        run_pair((0, 0, 0, 0), false, false, true);
+        run_pair((0, 0, 0, 0), false, false, 1);
     }
     #[kani::proof]
     #[kani::unwind(12)]
     fn recon_c1111_crlf() {
-        run_pair((1, 1, 1, 1), true, false, true);
+        run_pair((1, 1, 1, 1), true, false, 1);
+    }
+    // hard tabs with an empty continuation string (use_tabs, continuation_indents = 0): indentation is still tabs
+    #[kani::proof]
+    #[kani::unwind(12)]
+    fn recon_c1111_lf_tabs_nocont() {
+        run_pair((1, 1, 1, 1), false, true, 2);
     }
     // thorough tier
     #[kani::proof]
     #[kani::unwind(8)]
     fn recon_c0000_crlf_tabs() {
-        run_pair((0, 0, 0, 0), true, true, false);
+        run_pair((0, 0, 0, 0), true, true, 0);
     }
     #[kani::proof]
     #[kani::unwind(14)]
     fn recon_c2121_lf_tabs() {
-        run_pair((2, 1, 2, 1), false, true, false);
+        run_pair((2, 1, 2, 1), false, true, 0);
     }
     #[kani::proof]
     #[kani::unwind(14)]
     fn recon_c0212_crlf() {
-        run_pair((0, 2, 1, 2), true, false, false);
+        run_pair((0, 2, 1, 2), true, false, 0);
     }
     #[kani::proof]
     #[kani::unwind(12)]
     fn recon_c1002_lf() {
-        run_pair((1, 0, 0, 2), false, false, true);
+        run_pair((1, 0, 0, 2), false, false, 1);
     }
 }
